@@ -39,6 +39,13 @@ def main():
     seed = os.path.join(W, "seed")
     patch = os.path.join(seed, "patch.diff")
     meta = {"property": a.prop, "name": a.name, "needs_to_manifest": a.needs, "ran": []}
+    prev_path = os.path.join(VERIF, "seeded", a.name, "meta.json")
+    prev = json.load(open(prev_path)) if os.path.exists(prev_path) else {}
+    if a.skip_suite:
+        # keep the record of an earlier suite run of the same patch
+        meta["ran"] += [r for r in prev.get("ran", []) if "ctest" in r.get("cmd", "")]
+    if not a.needs:
+        meta["needs_to_manifest"] = prev.get("needs_to_manifest", "")
     rc, out = sh("git -C %s diff -- src" % W)
     meta["patch_matches_worktree"] = (out.strip() == open(patch).read().strip()) or None
     # 2. suite
@@ -88,6 +95,9 @@ def main():
                 print("check %s: exit %d, %d VIOLATION line(s)" % (cid, rc, len(viol)))
         finally:
             sh("git -C /repo checkout -- .")
+    merged = dict(prev.get("checks_against_patched_repo", {}))
+    merged.update(caught)
+    caught = merged
     meta["checks_against_patched_repo"] = caught
     meta["caught_by"] = sorted(c for c, v in caught.items() if v["violations"])
     dst = os.path.join(VERIF, "seeded", a.name)
